@@ -41,7 +41,7 @@ def showTask (s : State) (t : Nat) : String :=
 
 def showFut (s : State) (f : Nat) : String :=
   let F := s.futs f
-  s!"{f}{showSt F.st}" ++ ".".intercalate (F.cbs.map showCb)
+  s!"{f}{showSt F.st}{if F.noCancel then "~" else ""}" ++ ".".intercalate (F.cbs.map showCb)
 
 def insSorted (x : Nat) : List Nat → List Nat
   | [] => [x]
@@ -88,6 +88,7 @@ def parseEvent (ws : List String) : Option Event :=
   | ["setres", f] => f.toNat?.map .setResult
   | ["setexc", f] => f.toNat?.map .setExc
   | ["cancelfut", f] => f.toNat?.map .cancelFut
+  | ["nocancel", f, b] => f.toNat?.map (.setNoCancel · (b == "1"))
   | ["addcb", f] => f.toNat?.map (.addCb · 0)
   | ["cancel", t] => t.toNat?.map .cancelTask
   | ["cscancel", t] => t.toNat?.map .callSoonOther
@@ -125,7 +126,7 @@ def handleLine (s : State) (line : String) : State × String :=
         | _ => ""
       -- events on ids that do not exist are harness errors, not behaviours of the model
       let inRange : Bool := match ev with
-        | .setResult f | .setExc f | .cancelFut f | .addCb f _ => f < s.nf
+        | .setResult f | .setExc f | .cancelFut f | .addCb f _ | .setNoCancel f _ => f < s.nf
         | .endStep (.yieldFut f) => f < s.nf
         | .cancelTask t | .callSoonOther t | .reinsert t _ => t < s.nt
         | .taskThrow t _ => t < s.nt && (s.tasks t).py
